@@ -141,6 +141,23 @@ def run(ctx):
                   "after a store error the writer's cursor is rebuilt from %s: frames of the failed transaction stay in the segment and the retry appends duplicate LSNs behind them" % sorted(calls),
                   site=rc.loc())
 
+    # ---------------- R9 a fresh writer epoch starts dense with the durable log
+    rep.rule("C10.R9", "sibling agreement: recovery requires dense LSNs (validate_recovery_frame_order: lsn == previous + 1), so the first LSN of a fresh "
+                       "writer epoch may only be `next(an LSN that was written)` or the caller's recovered next LSN — never `next(previous epoch's started_at_lsn)`, "
+                       "which skips an LSN when that epoch wrote nothing")
+    fo = prog.fn(CW + "validate_recovery_frame_order")
+    dense = [c for c in comparisons(fo) if c[1] in ("Ne", "Eq", "ne", "eq") and any(x[0] == "call" and x[1].endswith("checked_next") for o in (c[2], c[3]) for x in near_origins(fo, o))]
+    rep.check(bool(dense), "C10.R9", "recovery:lsn-dense", "recovery demands lsn == next(previous lsn)", "validate_recovery_frame_order no longer demands dense LSNs", site=fo.loc())
+    af = prog.fn(FS + "::acquire_fresh_writer_epoch")
+    nexts = [bi for bi, t in af.calls() if (af.callee_of(t) or "").endswith("Lsn::checked_next") or any(a.get("fn", "") and str(a["fn"]).endswith("Lsn::checked_next") for a in t["args"])]
+    rep.check(bool(nexts), "C10.R9", "epoch-start:anchor", "%d checked_next site(s) derive the epoch's first LSN" % len(nexts), "acquire_fresh_writer_epoch no longer derives a start LSN with checked_next", site=af.loc())
+    for bi in nexts:
+        reads = chain_field_reads(af, af.blocks[bi]["t"]["args"][0])
+        unwritten = sorted(r_ for r_ in reads if r_[1] == "started_at_lsn")
+        rep.check(not unwritten, "C10.R9", "epoch-start:dense-with-durable-log", "the start LSN is next(final_lsn) of the previous epoch or the caller's recovered next LSN",
+                  "acquire_fresh_writer_epoch derives the new epoch's first LSN as next(%s.%s): when the previous epoch closed without a commit that LSN was never written, the new "
+                  "epoch's first acknowledged transaction leaves an LSN gap and every later recovery fails with LsnContinuityMismatch" % unwritten[0] if unwritten else "", site=af.loc(af.block_line(bi)))
+
     # ---------------- R2
     exceptions = {
         ("warp_core::trusted_runtime_host::TrustedRuntimeWal::try_update_evidence_catalog_after_commit", "*"): "best-effort evidence catalog update (posture flagged NeedsRebuild)",
